@@ -1,6 +1,5 @@
 /-
-  C03 — Decoders are total and never panic on arbitrary bytes (assembled, v3;
-  the v5 part is in Properties/C03V5.lean and assembled below once available).
+  C03 — Decoders are total and never panic on arbitrary bytes (assembled for both families).
 
   The conditional theorems of C03V3 (hypothesis: the `debug_assert!` of
   `TopicFilter::is_invalid` is unreachable) are discharged with C16, and the poll
@@ -15,6 +14,7 @@
 -/
 import Proofs.NoDebugPanic
 import Properties.C05
+import Properties.C03V5
 
 namespace C03
 open Mqtt
@@ -36,5 +36,23 @@ theorem v3_poll_never_panics (debug : Bool) (s : Bytes) (sched : List Poll.Sched
   C05.machine_never_panics (V3.pollFamily debug) debug s sched term
     (fun cb rl h bs site hh he =>
       C03.V3.blockDecode_never_panics debug (noDebugPanic debug) cb rl h bs site hh he)
+
+/-- v5: no entry point panics, for any byte string, in either build profile (this
+includes the `expect`s of the property-length macros, the property loop's fuel, the
+`0/1 qos` expect and every `unreachable!()`). -/
+theorem v5_never_panics (debug : Bool) (bs : Bytes) :
+    (∀ site, V5.decodeAsync debug bs ≠ .panic site) ∧
+    (∀ site, V5.decodeBlocking debug bs ≠ .panic site) ∧
+    (∀ site, V5.headerDecodeBlocking bs ≠ .panic site) ∧
+    (∀ site, V5.Header.decode bs ≠ .panic site) := by
+  have h := C03.V5.blocking_never_panics debug (noDebugPanic debug) bs
+  exact ⟨C03.V5.decodeAsync_never_panics debug (noDebugPanic debug) bs, h.1, h.2.1, h.2.2⟩
+
+/-- v5 poll decoder: no panic for any stream, schedule and terminal event. -/
+theorem v5_poll_never_panics (debug : Bool) (s : Bytes) (sched : List Poll.Sched) (term : Poll.Term) :
+    ∀ site, (Poll.run (V5.pollFamily debug) debug s sched term).result ≠ .panic site :=
+  C05.machine_never_panics (V5.pollFamily debug) debug s sched term
+    (fun cb rl h bs site hh he =>
+      C03.V5.blockDecode_never_panics debug (noDebugPanic debug) cb rl h bs site hh he)
 
 end C03
